@@ -54,6 +54,223 @@ def cmp_call(fn, ctree, callname, field, op, rhs_pred):
     return False, neg
 
 
+
+# ---- R-progress: interleaved product of the wake-up protocol (upv.conc) ---------------------------
+
+def _progress_job(job):
+    import time
+    from upv import conc
+    from upv.absint import Finding, Undecided, SYM
+    from rules import c07
+    repo, kind, L, progs, fused = job
+    prog = c07._prog(repo)
+    H = prog.hdr
+    Qq = ('obj', 'uq')
+    D = ('obj', 'deal')
+    t0 = time.time()
+    name = '%s[L=%d]:%s' % (kind, L, '|'.join(progs))
+    res = {'name': name, 'status': HOLDS, 'fused': fused}
+
+    def flag(obj, rec, f):
+        return ('addr', 'field', obj, rec, f)
+
+    class M(conc.RingMachine):
+        INTERP_PREFIX = ('uqueue_', 'udeal_')
+
+        in_tail = False
+
+        def note_access(self, kind, loc, ans):
+            if kind in ('qpush', 'qpop') and ans not in (0, ('null',)):
+                self.in_tail = True
+            elif kind == 'faa' and isinstance(loc, tuple) and loc[-1] == 'counter':
+                self.in_tail = False
+
+        def glued(self, kind, loc):
+            # fused mode: from the successful FIFO operation to the counter update that accounts for it is one step
+            return bool(fused and self.in_tail)
+
+        def field_load(self, obj, rec, field):
+            if rec == 'uqueue' and field == 'length':
+                return self.sh.length
+            if rec == 'upump' and field == 'cb':
+                return ('cb', 'deal')
+            return conc.RingMachine.field_load(self, obj, rec, field)
+
+        def call(self, fn, node, args, env, depth):
+            nm = node.get('fn')
+            if nm in ('ueventfd_read', 'ueventfd_write'):
+                loc = self.eval(fn, args[0], env, depth)
+                self.access('store', loc, 1 if nm == 'ueventfd_write' else 0, node)
+                return 1
+            if nm == 'ufifo_push':
+                v = [self.eval(fn, a, env, depth) for a in args]
+                return self.access('qpush', v[0], v[1], node)
+            if nm == 'ufifo_pop_internal':
+                v = [self.eval(fn, a, env, depth) for a in args]
+                return self.access('qpop', v[0], None, node)
+            if nm == 'upump_start':
+                self.started = True
+                return None
+            if nm == 'upump_stop':
+                self.started = False
+                return None
+            if nm is None:
+                cv = self.eval(fn, node.get('callee'), env, depth) if isinstance(node.get('callee'), dict) else SYM
+                if cv == ('cb', 'deal'):
+                    self.deal_cb()
+                    return None
+            return conc.RingMachine.call(self, fn, node, args, env, depth)
+
+        def deal_cb(self):
+            g = self.run(H.funcs['udeal_grab'], [D])
+            if g:
+                before = self.access('faa', ('ghost', 'holders'), 1)
+                if before != 0:
+                    raise Finding('two holders', None, 'udeal_grab grants the resource while it is held')
+                self.access('faa', ('ghost', 'holders'), -1)
+                self.run(H.funcs['udeal_yield'], [D, ('obj', 'pump%d' % self.tid)])
+                self.granted = True
+
+        def run_ops(self, ops):
+            self.started = False
+            for i, (op, arg) in enumerate(ops):
+                self.cur_op = i
+                if op == 'push':
+                    while True:
+                        r = self.run(H.funcs['uqueue_push'], [Qq, ('obj', arg)])
+                        if r:
+                            break
+                        # back to the event loop: the watcher on event_push calls us again
+                        self.access('wait', (flag(Qq, 'uqueue', 'event_push'), True))
+                    self.results.append((i, 1, self.op_first.get(i), self.op_last.get(i)))
+                elif op == 'pop':
+                    while True:
+                        r = self.run(H.funcs['uqueue_pop_internal'], [Qq])
+                        if r != ('null',):
+                            break
+                        self.access('wait', (flag(Qq, 'uqueue', 'event_pop'), True))
+                    self.results.append((i, r, self.op_first.get(i), self.op_last.get(i)))
+                elif op == 'acquire':
+                    self.granted = False
+                    self.run(H.funcs['udeal_start'], [D, ('obj', 'pump%d' % self.tid)])
+                    while not self.granted:
+                        self.access('wait', (flag(D, 'udeal', 'event'), bool(self.started)))
+                        self.deal_cb()
+                    self.results.append((i, 1, self.op_first.get(i), self.op_last.get(i)))
+            self.cur_op = None
+            return self.results
+    try:
+        sh = conc.Shared(L)
+        if kind == 'uqueue':
+            sh.cells[flag(Qq, 'uqueue', 'event_push')] = 1
+            sh.cells[flag(Qq, 'uqueue', 'event_pop')] = 0
+            sh.cells[flag(Qq, 'uqueue', 'counter')] = 0
+            threads = []
+            for t, p in enumerate(progs):
+                threads.append([('push', 'x%d%d' % (t, i)) if c == 'U' else ('pop', None) for i, c in enumerate(p)])
+        else:
+            sh.cells[flag(D, 'udeal', 'event')] = 1
+            sh.cells[flag(D, 'udeal', 'waiters')] = 0
+            sh.cells[flag(D, 'udeal', 'access')] = 0
+            threads = [[('acquire', None) for c in p] for p in progs]
+        ex = conc.Explorer(prog, H, sh, threads, machine_cls=M, max_states=400000)
+        ex.spin_bound = 400
+        bad = []
+
+        def enabled(pc, shared):
+            if pc is None or pc[0] != 'wait':
+                return True
+            floc, started = pc[1]
+            return bool(started) and shared.cells.get(floc, 0) == 1
+
+        def deadlock(infos, shared):
+            if bad:
+                return
+            asleep = [(t, inf.pc[1][0][-1], inf.pc[1][1]) for t, inf in enumerate(infos) if not inf.finished]
+            if kind == 'uqueue':
+                q = shared.cells.get(flag(Qq, 'uqueue', 'fifo'), ())
+                bad.append('every remaining thread is back in its event loop and none of their descriptors is readable (%s) while the queue holds %d of %d '
+                           'elements (counter %s): nobody will ever be woken' % (
+                               ', '.join('thread %d waits on %s' % (t, f) for t, f, _ in asleep), len(q), shared.length,
+                               shared.cells.get(flag(Qq, 'uqueue', 'counter'))))
+            else:
+                bad.append('the resource is free but every remaining thread is back in its event loop with nothing to wake it (%s; waiters=%s access=%s event=%s)' % (
+                    ', '.join('thread %d %s' % (t, 'watcher started' if st else 'watcher NOT started') for t, f, st in asleep),
+                    shared.cells.get(flag(D, 'udeal', 'waiters')), shared.cells.get(flag(D, 'udeal', 'access')),
+                    shared.cells.get(flag(D, 'udeal', 'event'))))
+        ex.enabled = enabled
+        ex.on_deadlock = deadlock
+
+        def done(infos, fm, shf):
+            if bad:
+                return
+            if kind == 'uqueue':
+                # FIFO order per producer and nothing lost: every consumer got as many elements as it asked
+                c = shf.cells.get(flag(Qq, 'uqueue', 'counter'))
+                q = shf.cells.get(flag(Qq, 'uqueue', 'fifo'), ())
+                if c != len(q):
+                    bad.append('at rest the element counter is %r while the queue holds %d elements' % (c, len(q)))
+        ex.explore(done)
+        res.update(states=ex.states, transitions=ex.transitions, executions=ex.executions, deadlocks=ex.deadlocks)
+        if bad:
+            res['status'] = VIOLATED
+            res['what'] = 'under some interleaving of %s: %s' % (' | '.join(progs), bad[0])
+    except Finding as f:
+        res['status'] = VIOLATED
+        res['what'] = 'under some interleaving: %s' % f
+    except Undecided as u:
+        res['status'] = UNDECIDED
+        res['why'] = str(u)
+    res['wall'] = round(time.time() - t0, 2)
+    return res
+
+
+def check_progress(rep, repo, tier):
+    import multiprocessing
+    import os
+    from rules import c07
+    rep.rule('R-progress', 'interleaved product of the CFGs of uqueue_push / uqueue_pop_internal (resp. udeal_start / udeal_grab / udeal_yield) run by threads '
+             'that go back to their event loop when the operation fails and are called again when their descriptor is readable (level-triggered, watcher '
+             'started); ufifo_push / ufifo_pop are atomic steps on a FIFO of L slots (their linearizability is C07), ueventfd_read / _write clear / set a flag, '
+             'every access to the counters and flags is a scheduling point. With as many elements produced as consumed: no reachable state has every remaining '
+             'thread asleep (lost wake-up); the counter equals the queue content at rest; the dealer never grants the resource to two threads')
+    cfg = [('uqueue', 1, ('U', 'O')), ('uqueue', 1, ('UU', 'OO')), ('uqueue', 1, ('U', 'U', 'OO')), ('uqueue', 2, ('UU', 'OO')),
+           ('uqueue', 2, ('UUU', 'OOO')), ('uqueue', 2, ('UU', 'U', 'OOO')), ('uqueue', 1, ('UU', 'O', 'O')),
+           ('udeal', 0, ('A', 'A')), ('udeal', 0, ('AA', 'A')), ('udeal', 0, ('AA', 'AA'))]
+    if tier == 'thorough':
+        cfg += [('udeal', 0, ('A', 'A', 'A')), ('uqueue', 2, ('UU', 'UU', 'OOOO')), ('uqueue', 2, ('UUU', 'O', 'OO')), ('uqueue', 3, ('UUUU', 'OOOO')), ('uqueue', 1, ('U', 'U', 'O', 'O')),
+                ('udeal', 0, ('AAA', 'AA'))]
+    c07._prog(repo)
+    # uqueue configurations are explored twice: as written, and with the counter update fused to the FIFO operation it accounts
+    # for.  A dead state that exists only in the first exploration is the known defect of uqueue (the counter is updated in a
+    # separate step: known_findings.txt); one that survives the fusion is something else.
+    jobs = []
+    for c in cfg:
+        jobs.append((repo,) + c + (False,))
+        if c[0] == 'uqueue':
+            jobs.append((repo,) + c + (True,))
+    with multiprocessing.Pool(min(16, os.cpu_count() or 4)) as pool:
+        out = pool.map(_progress_job, jobs, chunksize=1)
+    tot = {'states': 0, 'transitions': 0, 'executions': 0}
+    fused_res = {r['name']: r for r in out if r['fused']}
+    for r in out:
+        for k in tot:
+            tot[k] += r.get(k, 0)
+        loc = 'include/upipe/uqueue.h' if r['name'].startswith('uqueue') else 'include/upipe/udeal.h'
+        det = {k: r[k] for k in ('what', 'why', 'states', 'executions', 'deadlocks', 'wall') if k in r}
+        if r['fused']:
+            rep.add('R-progress', r['name'] + ':counter-fused', r['status'], loc, **det)
+        elif r['status'] == VIOLATED and fused_res.get(r['name'], {}).get('status') == HOLDS:
+            rep.add('R-progress', r['name'], VIOLATED, loc,
+                    cause='counter updated in a separate step from the FIFO operation (the same configuration holds when the two are fused)', **det)
+        elif r['status'] == VIOLATED and r['name'] in fused_res:
+            rep.add('R-progress', r['name'] + ':as-written', VIOLATED, loc, **det)
+        else:
+            rep.add('R-progress', r['name'], r['status'], loc, **det)
+    rep.tables['R-progress'] = dict(tot, configurations=len(out))
+    rep.extra_cov = {'states': tot['states'], 'transitions': tot['transitions']}
+
+
 def run(tier='quick', repo=None):
     repo = repo or facts.REPO
     rep = Report(PROP, tier)
@@ -167,6 +384,7 @@ def run(tier='quick', repo=None):
     ind = lambda n: n.get('k') == 'call' and not n.get('fn')
     ob('udeal_start:registers-as-waiter-first', bool(ev.find(add_w)) and not pr.must_precede(ev, add_w, ind), fn,
        'udeal_start must register in waiters before trying the callback')
+    check_progress(rep, repo, tier)
     rep.assumptions = ['ueventfd_read / ueventfd_write reset / set the readiness of the descriptor',
                        'the interleaving argument (sufficiency of the protocol) is outside this family of technique']
     return rep
